@@ -12,7 +12,7 @@ problem plus a summary:
     DIFF <lineno> <tag> <detail> :: <line>     model and implementation disagree
     PROP <lineno> <tag> <why> :: <line>        the oracle is false of the implementation's output
     BAD  <lineno> :: <line>                    unparseable line
-    COUNT <key> <n>                            input distribution
+    COUNT <key> <n>                            input distribution (also the harness's own `tally <key> <n>` lines, summed)
     SAMPLE <line>                              a few of the distinct non-trivial cases, verbatim
     SUMMARY lines= checks= ok= diff= prop= guard= bad= nontrivial=
 -/
@@ -47,6 +47,18 @@ partial def loop (h : IO.FS.Stream) (out : IO.FS.Stream) (st : Stats) (tbl : Tex
     match tbl.absorb line with
     | some t => loop h out st t maxReport
     | none =>
+      out.putStrLn s!"BAD 0 :: {line}"
+      loop h out { st with bad := st.bad + 1 } tbl maxReport
+  else if line.startsWith "tally " then
+    -- `tally <key> <n>`: the harness reports how much it covered without a case line (exhaustive sweeps)
+    match line.splitOn " " with
+    | ["tally", k, n] =>
+      match n.toNat? with
+      | some n => loop h out { st with counts := st.counts.insert k (st.counts.getD k 0 + n) } tbl maxReport
+      | none =>
+        out.putStrLn s!"BAD 0 :: {line}"
+        loop h out { st with bad := st.bad + 1 } tbl maxReport
+    | _ =>
       out.putStrLn s!"BAD 0 :: {line}"
       loop h out { st with bad := st.bad + 1 } tbl maxReport
   else
